@@ -26,7 +26,7 @@ def register(S):
         ctx.ip.event(ctx.st, "map_entry", key=key, fn=ctx.fr.fn["path"], span=ctx.call.get("span"))
         for k2, cell in m.get("cells"):
             if k2 == kf:
-                return ctx.ret(AdtVal(ENTRY, 1, [Opaque.make("occupied", map=mref, cell=cell, key=key)], vname="Occupied"))
+                return ctx.ret(AdtVal(ENTRY, 1, [Opaque.make("occupied", map=mref, cell=cell.loc, key=key)], vname="Occupied"))
         outs = []
         s_v = ctx.st
         if not m.get("complete"):
@@ -38,7 +38,7 @@ def register(S):
                 vty = targs[1]
             cell = s_o.new_heap(existing_value(ctx.ip, s_o, vty))
             m2 = ctx.ip.read_loc(s_o, mref.loc)
-            ctx.ip.write_loc(s_o, mref.loc, m2.set(cells=m2.get("cells") + ((kf, cell),)))
+            ctx.ip.write_loc(s_o, mref.loc, m2.set(cells=m2.get("cells") + ((kf, RefVal(cell, True)),)))
             s_o.events.append({"kind": "map_vacancy", "vacant": False, "key": key})
             ctx.ip.finish_call(s_o, ctx.dest, ctx.target, AdtVal(ENTRY, 1, [Opaque.make("occupied", map=mref, cell=cell, key=key)], vname="Occupied"))
             outs.append(s_o)
@@ -59,6 +59,8 @@ def register(S):
                         fields.append(IntVal.const(t, 0))
                     elif isinstance(f["ty"], dict) and f["ty"].get("k") == "adt" and f["ty"]["path"] in ip.prog.adts and ip.prog.adts[f["ty"]["path"]]["kind"] == "struct":
                         fields.append(existing_value(ip, st, f["ty"]))
+                    elif isinstance(f["ty"], dict) and f["ty"].get("k") == "array" and f["ty"].get("len") is not None and f["ty"]["len"] <= 8:
+                        fields.append(ArrayVal([top_of(f["ty"]["elem"], tags=frozenset([("existing", "%s[%d]" % (f["name"], j))])) for j in range(f["ty"]["len"])], f["ty"]["len"], f["ty"]["elem"]))
                     else:
                         fields.append(top_of(f["ty"], tags=frozenset([("existing", f["name"])])))
                 return AdtVal(vty["path"], 0, fields, vname=adt["variants"][0]["name"])
@@ -84,7 +86,7 @@ def register(S):
         def insert(ip2, st2, val):
             cell = st2.new_heap(val)
             m2 = ip2.read_loc(st2, mref.loc)
-            ip2.write_loc(st2, mref.loc, m2.set(cells=m2.get("cells") + ((fp(key), cell),)))
+            ip2.write_loc(st2, mref.loc, m2.set(cells=m2.get("cells") + ((fp(key), RefVal(cell, True)),)))
             st2.events.append({"kind": "map_insert", "key": key})
             return ip2.finish_call(st2, dest, target, RefVal(cell, True))
         if ctx.path.endswith("or_insert"):
@@ -115,14 +117,14 @@ def register(S):
             kf = fp(key)
             for k2, cell in m.get("cells"):
                 if k2 == kf:
-                    return ctx.ret(some(RefVal(cell, False)))
+                    return ctx.ret(some(RefVal(cell.loc, False)))
             if m.get("complete"):
                 return ctx.ret(NONE)
             s_some, s_none = ctx.st.copy(), ctx.st
             vty = (ctx.callee.get("targs") or [None, None])[1]
             cell = s_some.new_heap(existing_value(ctx.ip, s_some, vty))
             m2 = ctx.ip.read_loc(s_some, mref.loc)
-            ctx.ip.write_loc(s_some, mref.loc, m2.set(cells=m2.get("cells") + ((kf, cell),)))
+            ctx.ip.write_loc(s_some, mref.loc, m2.set(cells=m2.get("cells") + ((kf, RefVal(cell, True)),)))
             return ctx.ret_states([(s_some, some(RefVal(cell, False))), (s_none, NONE)])
         return ctx.ret(ctx.top_ret())
 
@@ -160,7 +162,7 @@ def register(S):
         mref = it.get("map")
         m2 = ctx.ip.read_loc(s_some, mref.loc)
         if isinstance(m2, Opaque) and m2.kind == "btreemap":
-            ctx.ip.write_loc(s_some, mref.loc, m2.set(cells=m2.get("cells") + ((fp(k), vcell),)))
+            ctx.ip.write_loc(s_some, mref.loc, m2.set(cells=m2.get("cells") + ((fp(k), RefVal(vcell, True)),)))
         what = it.get("what")
         if what == "keys":
             v = RefVal(kcell, False)
